@@ -1,0 +1,90 @@
+//go:build verif
+
+package forward
+
+import (
+	"time"
+
+	"github.com/miekg/dns"
+)
+
+// VerifC17SwapUpstreams replaces, in place, the upstream objects that NewHandler
+// built from the configuration by the given ones (same counts), keeping
+// whatever structure NewHandler gave to the status list, the active list and
+// the fallback list.  It is meant to be called right after NewHandler.
+func VerifC17SwapUpstreams(h *Handler, mains, fallbacks []Upstream) {
+	h.activeUpstreamsMu.Lock()
+	defer h.activeUpstreamsMu.Unlock()
+
+	for i, st := range h.upstreams {
+		if i >= len(mains) {
+			break
+		}
+
+		old := st.upstream
+		for j, a := range h.activeUpstreams {
+			if a == old {
+				h.activeUpstreams[j] = mains[i]
+			}
+		}
+
+		_ = old.Close()
+		st.upstream = mains[i]
+	}
+
+	for i := range h.fallbacks {
+		if i >= len(fallbacks) {
+			break
+		}
+
+		_ = h.fallbacks[i].Close()
+		h.fallbacks[i] = fallbacks[i]
+	}
+}
+
+// VerifC17AdvanceClock makes the handler believe that d more time has passed
+// since every recorded failed health check.
+func VerifC17AdvanceClock(h *Handler, d time.Duration) {
+	for _, st := range h.upstreams {
+		if !st.lastFailedHealthcheck.IsZero() {
+			st.lastFailedHealthcheck = st.lastFailedHealthcheck.Add(-d)
+		}
+	}
+}
+
+// VerifC17State returns the positions (in the list of main upstreams) of the
+// active upstreams, in order (-1 for an object that is not a main upstream), and
+// for every main upstream the time since its last failed health check (-1 if
+// the recorded time is zero).
+func VerifC17State(h *Handler) (active []int, failedAgo []time.Duration, nFallbacks int) {
+	h.activeUpstreamsMu.RLock()
+	defer h.activeUpstreamsMu.RUnlock()
+
+	for _, a := range h.activeUpstreams {
+		idx := -1
+		for i, st := range h.upstreams {
+			if st.upstream == a {
+				idx = i
+
+				break
+			}
+		}
+
+		active = append(active, idx)
+	}
+
+	for _, st := range h.upstreams {
+		if st.lastFailedHealthcheck.IsZero() {
+			failedAgo = append(failedAgo, -1)
+		} else {
+			failedAgo = append(failedAgo, time.Since(st.lastFailedHealthcheck))
+		}
+	}
+
+	return active, failedAgo, len(h.fallbacks)
+}
+
+// VerifC17ValidatePlainResponse exports validatePlainResponse.
+func VerifC17ValidatePlainResponse(req, resp *dns.Msg) (err error) {
+	return validatePlainResponse(req, resp)
+}
